@@ -13,7 +13,7 @@ import (
 func init() {
 	register(&PropRules{
 		ID:      "C01",
-		Explain: "Password verdict tracks the last acknowledged write — structural part: (C01.1) password identity: from every exported store entry point (Dir.AddUser/UpdateUser/Init/Authenticate, UserHash.Add/Update/Authenticate) to the password operand of each KDF call (argon2.IDKey in Generate and Check; scryptauth Gen/Check and, inside the dependency, scrypt.Key) the value is the parameter itself up to string→[]byte — no slicing, trimming, folding; (C01.2–C01.4) the verdict can be true only through parameter-set lookup, algorithm match and a constant-time comparison of the whole KDF output with the whole stored digest (shared with C02.1); (C01.5) file-name agreement: every user-file path is Join(BaseDir,user)+{.admin|.user}; getFilename's extension is decided by its flag; Exists consults .admin first and reports admin only for it, then .user; Remove unlinks both extensions of the same stem; SetAdmin renames between exactly these two in the direction of its argument; fileExists reports 'absent' only on IsNotExist; (C01.6) the reported admin flag and last-change are those of the record that was checked, and List reports the entry's own extension flag and time.",
+		Explain: "Password verdict tracks the last acknowledged write — structural part: (C01.1) password identity: from every exported store entry point (Dir.AddUser/UpdateUser/Init/Authenticate, UserHash.Add/Update/Authenticate) to the password operand of each KDF call (argon2.IDKey in Generate and Check; scryptauth Gen/Check and, inside the dependency, scrypt.Key) the value is the parameter itself up to string→[]byte — no slicing, trimming, folding, and the temporary []byte copy is not written (e.g. cleared) before the callee reads it; (C01.2–C01.4) the verdict can be true only through parameter-set lookup, algorithm match and a constant-time comparison of the whole KDF output with the whole stored digest (shared with C02.1); (C01.5) file-name agreement: every user-file path is Join(BaseDir,user)+{.admin|.user}; getFilename's extension is decided by its flag; Exists consults .admin first and reports admin only for it, then .user; Remove unlinks both extensions of the same stem; SetAdmin renames between exactly these two in the direction of its argument; fileExists reports 'absent' only on IsNotExist; (C01.6) the reported admin flag and last-change are those of the record that was checked, and List reports the entry's own extension flag and time.",
 		Undec:   []string{"correctness of scrypt / argon2id / HMAC (trusted)", "closure of the verdict under arbitrary operation histories and file-system behaviour", "the PBKDF2 key-equivalence classes named in the property"},
 		Run:     runC01,
 		Floors:  map[string]int{"C01.1": 10, "C01.2": 4, "C01.5": 5},
@@ -23,7 +23,7 @@ func init() {
 type plink struct {
 	name   string
 	fn     *ssa.Function
-	callee string // callee name suffix to match
+	callee string // callee name suffix to match ("a|b": either)
 	// argument position (receiver = 0) of the password at the callee and the parameter index of the password in fn
 	argPos, paramIdx int
 	extra            func(s *an.PathState, args []*an.Term) []string
@@ -66,7 +66,9 @@ func runC01(c *an.Ctx, p *an.Prog, thorough bool) {
 		{"UserHash.Authenticate -> Hasher.Check", p.Method("/store", "UserHash", "Authenticate"), "Hasher.Check", 1, 1, nil},
 		{"Argon2IDHasher.Generate -> argon2.IDKey", p.Method("/store", "Argon2IDHasher", "Generate"), "argon2.IDKey", 0, 1, nil},
 		{"Argon2IDHasher.Check -> argon2.IDKey", p.Method("/store", "Argon2IDHasher", "Check"), "argon2.IDKey", 0, 1, nil},
-		{"ScryptAuthHasher.Generate -> scryptauth.Gen", p.Method("/store", "ScryptAuthHasher", "Generate"), "Context).Gen", 1, 1, nil},
+		// Gen(pw) is salt + Hash(pw, salt) (link "scryptauth.Gen -> Hash" below): a Generate that draws the salt itself and
+		// calls Hash hands the password to the same place, at the same operand position
+		{"ScryptAuthHasher.Generate -> scryptauth.Gen", p.Method("/store", "ScryptAuthHasher", "Generate"), "scryptauth.v2.Context).Gen|scryptauth.v2.Context).Hash", 1, 1, nil},
 		{"ScryptAuthHasher.Check -> scryptauth.Check", p.Method("/store", "ScryptAuthHasher", "Check"), "Context).Check", 2, 1, nil},
 		{"scryptauth.Gen -> Hash", findMethodAny(p, sa, "Context", "Gen"), "Context).Hash", 1, 1, nil},
 		{"scryptauth.Check -> Hash", findMethodAny(p, sa, "Context", "Check"), "Context).Hash", 1, 2, nil},
@@ -81,7 +83,14 @@ func runC01(c *an.Ctx, p *an.Prog, thorough bool) {
 		for _, in := range an.DeepInstrs(l.fn) {
 			{
 				ci, ok := in.(ssa.CallInstruction)
-				if !ok || !strings.HasSuffix(an.CalleeName(ci), l.callee) {
+				if !ok {
+					continue
+				}
+				match := false
+				for _, alt := range strings.Split(l.callee, "|") {
+					match = match || strings.HasSuffix(an.CalleeName(ci), alt)
+				}
+				if !match {
 					continue
 				}
 				an.EnumPaths(l.fn, nil, in, func(s *an.PathState) {
@@ -95,6 +104,13 @@ func runC01(c *an.Ctx, p *an.Prog, thorough bool) {
 					want := s.T(l.fn.Params[l.paramIdx])
 					if got.K != want.K {
 						bad = append(bad, fmt.Sprintf("password operand is %s, not the parameter %s itself", args[l.argPos].K, want.K))
+					} else if args[l.argPos].Op == "conv" {
+						// []byte(password) is a temporary copy: it still holds the password only if nothing wrote it before this call
+						for _, e := range s.Events {
+							if w := bufWrite(p, e, args[l.argPos]); w != "" {
+								bad = append(bad, "the []byte copy of the password is written before it reaches the callee ("+w+")")
+							}
+						}
 					}
 					if l.extra != nil {
 						bad = append(bad, l.extra(s, args)...)
